@@ -538,7 +538,6 @@ int SimulateMsp430::one_operand_exe(uint16_t opcode)
   int o;
   int reg_index;
   int As, bw;
-  int count = 1;
   uint32_t result;
   int src;
 
